@@ -270,6 +270,21 @@ def asf_guid_confusion(d):
         n += 1
 
 
+def asf_nested_extensions(d):
+    """header extension objects nested in each other (c04_loaders.asf_nested), deeper than the interpreter's recursion limit:
+    alone, and in place of the sample's own objects after its first one"""
+    import struct
+    import c04_loaders
+    if d[:16] != W.ASF_HDR or len(d) < 54:
+        return
+    first = 30 + struct.unpack("<Q", d[46:54])[0]
+    for depth in (2, 1000, 2000):
+        nest = c04_loaders.asf_nested(depth)
+        yield "asf-nested-extension:%d" % depth, nest
+        if 54 <= first <= len(d):
+            yield "asf-nested-extension-after-first:%d" % depth, c04_loaders.asf_hdr([d[30:first], nest[30:]])
+
+
 def asf_long_names(d):
     """an Extended Content Description attribute whose name fills the 16-bit length field (with and without the
     NUL terminator), inserted by byte surgery (object size, header size kept consistent)"""
@@ -444,6 +459,7 @@ def structured(name, d):
         gens.append(asf_inputs(d))
         gens.append(asf_long_names(d))
         gens.append(asf_guid_confusion(d))
+        if name == "silence-1.wma": gens.append(asf_nested_extensions(d))     # one file is enough
     if fam == "ape" or b"APETAGEX" in d[-400:]:
         gens.append(ape_inputs(d))
         gens.append(ape_at_start_inputs(d))
